@@ -276,3 +276,42 @@ Proof.
   unfold varint. pose proof (uvarint_bounds buf) as H. destruct (uvarint buf) as [ux n].
   destruct H as (Hv & Hn). split; [now apply unzigzag_go_range | assumption].
 Qed.
+
+(* ---------------------------------------------------------------- the specification, assembled *)
+Theorem uvarint_spec x : in_u64 x ->
+  groups_canonical (put_uvarint x) = true /\ groups_value (put_uvarint x) = x /\
+  len (put_uvarint x) = uvarint_size x /\ wf_bytes (put_uvarint x) = true /\
+  forall suf, uvarint (put_uvarint x ++ suf) = (x, len (put_uvarint x)).
+Proof.
+  intros H. repeat split.
+  - now apply put_uvarint_canonical.
+  - now apply put_uvarint_value.
+  - now apply put_uvarint_size.
+  - now apply put_uvarint_wf.
+  - intros suf. now apply uvarint_put.
+Qed.
+Theorem varint_spec x : in_i64 x ->
+  put_varint x = put_uvarint (zigzag x) /\ unzigzag (zigzag x) = x /\
+  groups_canonical (put_varint x) = true /\ groups_value (put_varint x) = zigzag x /\
+  len (put_varint x) = varint_size x /\ wf_bytes (put_varint x) = true /\
+  forall suf, varint (put_varint x ++ suf) = (x, len (put_varint x)).
+Proof.
+  intros H. assert (E : put_varint x = put_uvarint (zigzag x)) by (unfold put_varint; now rewrite zigzag_go_eq).
+  pose proof (zigzag_range x H) as R. repeat split.
+  - exact E.
+  - apply unzigzag_zigzag.
+  - rewrite E. now apply put_uvarint_canonical.
+  - rewrite E. now apply put_uvarint_value.
+  - now apply put_varint_size.
+  - now apply put_varint_wf.
+  - intros suf. now apply varint_put.
+Qed.
+(* sizes as the protocol tabulates them: 1 byte below 2^7, 2 below 2^14, ..., 10 for the top of the 64-bit range *)
+Example uvarint_size_steps :
+  map uvarint_size [0; 127; 128; 16383; 16384; 2097151; 2097152; two63; two64 - 1] = [1; 1; 2; 2; 3; 3; 4; 10; 10].
+Proof. vm_compute. reflexivity. Qed.
+Example varint_examples :
+  map put_varint [0; -1; 1; -2; 63; -64; 64; 300; - two63; two63 - 1] =
+  [[0]; [1]; [2]; [3]; [126]; [127]; [128; 1]; [216; 4];
+   [255; 255; 255; 255; 255; 255; 255; 255; 255; 1]; [254; 255; 255; 255; 255; 255; 255; 255; 255; 1]].
+Proof. vm_compute. reflexivity. Qed.
